@@ -23,12 +23,16 @@ CHash(f) == f \in {"hybrid_code_idt", "hybrid_code_idt_token"}                  
 \* session_aud: the application's session already names an audience of its own; the requesting client is named all the same.
 \* The same sessions carry custom claims NAMED nonce / at_hash / c_hash: they never stand in for the claims the server computes
 \* (at_hash / c_hash / nonce are present exactly when this table says so, with the computed values)
-RowsA == { [tbl |-> "A", flow |-> f, openid |-> o, subject |-> s, key |-> k, preset |-> p, session_aud |-> sa,
+\* issuer: what the application's session says about the issuer. "same": the configured issuer; "tenant": an issuer of its own (a
+\* multi-tenant deployment), which the ID Token carries, since it carries the SESSION's issuer; "unset": nothing, so the configured one
+Issuers == {"same", "tenant", "unset"}
+RowsA == { [tbl |-> "A", flow |-> f, openid |-> o, subject |-> s, key |-> k, preset |-> p, session_aud |-> sa, issuer |-> i,
+            iss |-> IF i = "tenant" THEN "tenant" ELSE "config",
             issued |-> o /\ s # "" /\ p # "past",
             alg |-> Alg(k), hash_bits |-> HashBits(k), at_hash |-> AtHash(f), c_hash |-> CHash(f),
             undet |-> k = "jwk_es384_nohdr"] :
-            f \in Flows, o \in BOOLEAN, s \in {"peter", ""}, k \in Keys, p \in Presets, sa \in BOOLEAN }
-ValidA == { r \in RowsA : (r.key # "rsa" => (r.openid /\ r.subject # "" /\ r.preset = "none" /\ ~r.session_aud)) }
+            f \in Flows, o \in BOOLEAN, s \in {"peter", ""}, k \in Keys, p \in Presets, sa \in BOOLEAN, i \in Issuers }
+ValidA == { r \in RowsA : (r.key # "rsa" => (r.openid /\ r.subject # "" /\ r.preset = "none" /\ ~r.session_aud /\ r.issuer = "same")) }
 
 (* (B) offsets in ticks of auth_time relative to requested_at; max_age in ticks (0 = absent) *)
 \* 50: auth_time lies in the future (after "now"); 99: the session has no auth_time at all
@@ -48,6 +52,7 @@ RowsB == { [tbl |-> "B", flow |-> f, max_age |-> ma, offset |-> off, prompt |-> 
             h \in {"none", "same", "other", "same_expired", "other_expired", "garbage", "no_sub", "foreign_key", "foreign_key_expired"} }   \* an expired hint is still a hint: only its expiry is forgiven
 
 ASSUME \A r \in ValidA : r.issued => (r.openid /\ r.subject # "")
+ASSUME \A r \in ValidA : (r.iss = "tenant" <=> r.issuer = "tenant")
 ASSUME \A r \in ValidA : (r.flow \in {"refresh", "refresh_hybrid"} => ~r.c_hash)
 ASSUME PrintT(<<"ROWS", Cardinality(ValidA), Cardinality(RowsB)>>)
 ASSUME JsonSerialize(IOEnv.VERIF_TABLE_IDT, SetToSeq(ValidA) \o SetToSeq(RowsB))
